@@ -394,7 +394,7 @@ def _strategy(tier):
     for p, sp in SPEC.items():
         toks += sp["hosts"] + ["/" + s for s in sp["full"]] + ["?" + q for q in sp["queries"]] + ["#" + f for f in sp["fragments"]]
     toks += ["/", "//", "?", "#", "&", "=", "%", " ", "http://", "https://", "@", ":", "..", "é", "[", "]"]
-    tok = st.one_of(st.sampled_from(sorted(set(toks))), st.text("abc/?#&=%:@. 19", max_size=6))
+    tok = st.one_of(st.sampled_from(sorted(set(toks))), st.text("abc/?#&=%:@. 19", max_size=6), st.characters(blacklist_categories=("Cs",)))
     return st.tuples(st.lists(tok, min_size=0, max_size=7).map("".join), st.booleans(), st.booleans()).map(
         lambda v: {"kind": "platform", "platform": "all", "url": v[0], "allow_relative_urls": v[1], "fix_common_mistakes": v[2]})
 
